@@ -3,10 +3,10 @@ VIEW view
 CONSTANTS
   OffsMod = 65536
   Kind = "nameaddr"
-  Atoms <- AtomsKnownP
-  Prefix <- PfxNone
-  MaxLen = 6
-  Cfgs <- CfgsNA1
+  Atoms <- AtomsKnownE
+  Prefix <- PfxExpN
+  MaxLen = 15
+  Cfgs <- CfgsNA8
   Junk = 34
   EmitOn = TRUE
 INVARIANTS ResumeEqFresh Stable OffsSane Emit
